@@ -182,7 +182,7 @@ def decode_text(s):
             i += 1
     return out
 
-RALPHA = ["a", "<", "&", "\xa0", "é", "Ā", "\x80", "\x9f", "\x81", "\U0001d504", "\U00010000", "\x00", "≂̸"[0], "￾", "\U0010ffff"]
+RALPHA = ["\u00c9", "\u00dc", "a", "<", "&", "\xa0", "é", "Ā", "\x80", "\x9f", "\x81", "\U0001d504", "\U00010000", "\x00", "≂̸"[0], "￾", "\U0010ffff"]
 NR = len(RALPHA)
 
 def sig_c1_numeric(k, i0, i1, i2, start, end, **_):
@@ -206,4 +206,28 @@ def reverse_map(k: int, i0: int, i1: int, i2: int, start: int, end: int) -> bool
     for ch in rep:
         if ord(ch) > 127:
             return False                 # the replacement itself must be encodable anywhere
-    return decode_text(rep) == obj[start:end]
+    if decode_text(rep) != obj[start:end]:
+        return False
+    # the replacement is self-delimiting: whatever follows (a letter, a digit, '=') cannot change how it decodes,
+    # in text and in attribute values (the attribute exception applies to semicolon-less names)
+    for tail in ("x", "1", "=", ";"):
+        if decode_text(rep + tail) != obj[start:end] + tail:
+            return False
+        j = 0
+        out = ""
+        s2 = rep + tail
+        while j < len(s2):
+            if s2[j] == "&":
+                r, nj = R10.consume(s2, j + 1, True)
+                if r is None:
+                    out += "&"
+                    j += 1
+                else:
+                    out += r
+                    j = nj
+            else:
+                out += s2[j]
+                j += 1
+        if out != obj[start:end] + tail:
+            return False
+    return True
